@@ -3,6 +3,8 @@ package l1sync
 import (
 	"encoding/json"
 	"fmt"
+	"io"
+	"log"
 	"os"
 	"path/filepath"
 	"sort"
@@ -40,6 +42,7 @@ type Env struct {
 }
 
 func Setup(mode string) *Env {
+	log.SetOutput(io.Discard) // the builder's progress lines (foreign shards are built in this process)
 	work := os.Getenv("VERIF_WORK")
 	if work == "" {
 		work = filepath.Join(os.TempDir(), "l1sync-"+mode)
